@@ -228,6 +228,8 @@ class Ctx(object):
         skip_first = kw.pop("_mutates_self", False)
         readonly = kw.pop("_readonly", None)
         repeat = kw.pop("_repeat", True)
+        if kw.get("interval") is not None:
+            kw["interval"] = self.vary_interval(kw["interval"])
         guard_objs = list(args) + list(kw.values())
         if getattr(fn, "__self__", None) is not None and not skip_first:
             guard_objs.append(fn.__self__)
@@ -305,6 +307,42 @@ class Ctx(object):
         return res
 
     # ------------------------------------------------------------------ helpers to build inputs
+    def vary_interval(self, iv):
+        """the same averaging interval in the forms users write: tuple / list, end points as python float, python int
+        (whole values), numpy float64 / int64 scalars; a list of intervals as list / tuple of lists / tuples.  The numeric
+        values never change.  (ndarray intervals are rejected by the documented Sequence assertion: not generated.)"""
+        n = self.cut_calls
+
+        def num(v, j):
+            if isinstance(v, (bool, np.bool_)) or not isinstance(v, (int, float, np.floating, np.integer)):
+                return v
+            f = float(v)
+            m = (n + j) % 7
+            if m == 1:
+                return np.float64(f)
+            if f.is_integer() and abs(f) < 1e9:
+                if m == 2:
+                    return int(f)
+                if m == 3:
+                    return np.int64(f)
+            return f
+
+        def one(pair, j):
+            q = [num(pair[0], j), num(pair[1], j + 3)]
+            return tuple(q) if (n + j) % 2 else q
+        try:
+            if isinstance(iv[0], (list, tuple)):
+                self.counters["repr_interval_list_of_pairs"] += 1
+                out = [one(pr, j) for j, pr in enumerate(iv)]
+                return tuple(out) if n % 3 == 0 else out
+            out = one(iv, 0)
+        except Exception:
+            return iv
+        kinds = {type(out[0]).__name__, type(out[1]).__name__}
+        if kinds - {"float"}:
+            self.counters["repr_interval_nonfloat_ends"] += 1
+        return out
+
     def trains(self, case, which=None):
         """build SpikeTrain objects; the *representation* of the constructor arguments is varied deterministically
         (float array / python list / tuple / whole numbers as python ints; edges as list / tuple / array)"""
@@ -319,8 +357,23 @@ class Ctx(object):
                     out.append(out[same[0]])
                     self.counters["same_object_listed_twice"] += 1
                     continue
-            v = (self.evals + k) % 5
-            if v == 2:
+            v = (self.evals + k) % 9
+            whole = bool(s) and all(float(t).is_integer() and abs(t) < 1e9 for t in s)
+            if v == 5 and len(s) >= 2:
+                # a strided (non-contiguous) view, e.g. one column of a 2-d array of recordings
+                spikes = np.repeat(np.array(s, dtype=float), 2)[::2]
+                self.counters["repr_spikes_strided_view"] += 1
+            elif v == 6 and whole:
+                spikes = np.array([int(t) for t in s], dtype=np.int64)
+                self.counters["repr_spikes_int64_array"] += 1
+            elif v == 7 and s and all(float(np.float32(t)) == float(t) for t in s):
+                spikes = np.array(s, dtype=np.float32)
+                self.counters["repr_spikes_float32_array"] += 1
+            elif v == 8 and len(s) >= 2:
+                # a reversed view of a descending array (negative stride), ascending values
+                spikes = np.array(s[::-1], dtype=float)[::-1]
+                self.counters["repr_spikes_negative_stride"] += 1
+            elif v == 2:
                 spikes = [float(t) for t in s]
                 self.counters["repr_spikes_python_list"] += 1
             elif v == 3 and s and all(float(t).is_integer() and abs(t) < 1e9 for t in s):
@@ -331,9 +384,24 @@ class Ctx(object):
                 self.counters["repr_spikes_tuple"] += 1
             else:
                 spikes = np.array(s, dtype=float)
-            e = (self.evals + 2 * k) % 3
-            edges = [case["ts"], case["te"]] if e == 0 else (case["ts"], case["te"]) if e == 1 else np.array([case["ts"], case["te"]])
-            out.append(ps.SpikeTrain(spikes, edges))
+            e = (self.evals + 2 * k) % 5
+            ts_, te_ = case["ts"], case["te"]
+            if e == 3 and ts_ == 0:
+                edges = te_            # documented: a single number T1 means [0, T1]
+                self.counters["repr_edges_scalar"] += 1
+            elif e == 4:
+                edges = [np.float64(ts_), np.float64(te_)]
+                if float(ts_).is_integer() and float(te_).is_integer() and abs(ts_) < 1e9 and abs(te_) < 1e9:
+                    edges = (int(ts_), np.int64(te_))
+                self.counters["repr_edges_numpy_scalars"] += 1
+            else:
+                edges = [ts_, te_] if e == 0 else (ts_, te_) if e == 1 else np.array([ts_, te_])
+            st = ps.SpikeTrain(spikes, edges)
+            if (self.evals + 3 * k) % 11 == 0 and len(s) >= 2 and isinstance(st.spikes, np.ndarray):
+                # users also assign `.spikes` (the documented attribute): a float64 array that happens to be a strided view
+                st.spikes = np.repeat(np.array(s, dtype=float), 2)[::2]
+                self.counters["repr_spikes_assigned_view"] += 1
+            out.append(st)
         return out
 
 
